@@ -44,6 +44,7 @@ type input struct {
 type piece struct {
 	Lit string `json:"lit,omitempty"`
 	Var string `json:"var,omitempty"`
+	Exp *expr  `json:"exp,omitempty"`
 }
 
 const compChars = "abcxyzABCXYZ019-_"
@@ -272,18 +273,7 @@ func caseResolve(dir string, q qj, existing []string) gen.Case {
 }
 
 func caseRender(dir string, vars map[string]string, tpl []piece) gen.Case {
-	var src strings.Builder
-	var items []string
-	for _, p := range tpl {
-		if p.Var != "" {
-			src.WriteString("{{ " + p.Var + " }}")
-			items = append(items, "TVar "+gen.Str(p.Var))
-		} else {
-			src.WriteString(p.Lit)
-			items = append(items, "TLit "+gen.Str(p.Lit))
-		}
-	}
-	ex := map[string]string{"comp/ANY/any/tpl": src.String()}
+	ex := map[string]string{"comp/ANY/any/tpl": tplSource(tpl)}
 	f, err := writeBackend(dir, ex)
 	if err != nil {
 		panic(err)
@@ -302,7 +292,7 @@ func caseRender(dir string, vars map[string]string, tpl []piece) gen.Case {
 	} else {
 		o = "error: " + err.Error()
 	}
-	return gen.Case{Term: fmt.Sprintf("CRender %s %s %s", gen.KVs(vars), gen.List(items), obs),
+	return gen.Case{Term: fmt.Sprintf("CRender %s %s %s", gen.KVs(vars), tplTerm(tpl), obs),
 		Kind: "render", Input: input{Vars: vars, Tpl: tpl}, Obs: o}
 }
 
@@ -350,8 +340,8 @@ func main() {
 	defer os.RemoveAll(tmp)
 
 	var cases []gen.Case
-	if o.Replay != "" {
-		ins, kinds, err := gen.LoadReplay(o.Replay)
+	addReplay := func(path string) {
+		ins, kinds, err := gen.LoadReplay(path)
 		if err != nil {
 			panic(err)
 		}
@@ -371,16 +361,39 @@ func main() {
 				cases = append(cases, caseResolve(tmp, *in.Q, in.Existing))
 			case "render":
 				cases = append(cases, caseRender(tmp, in.Vars, in.Tpl))
+			case "seq":
+				var sq seqIn
+				if err := json.Unmarshal(raw, &sq); err != nil {
+					panic(err)
+				}
+				if validSeq(sq) {
+					cases = append(cases, caseSeq(tmp, sq))
+				}
 			}
 		}
+	}
+	if o.Replay != "" {
+		addReplay(o.Replay)
 	} else {
+		// corpus first: request sequences on one Service (a cached template set must not carry
+		// anything of an earlier request into a later payload)
+		files, _ := filepath.Glob("corpus/C20/*.json")
+		sort.Strings(files)
+		for _, f := range files {
+			addReplay(f)
+		}
 		r := gen.NewRand(o.Seed)
 		rParse, rPrint, rParams, rRes, rRender := r.Fork(), r.Fork(), r.Fork(), r.Fork(), r.Fork()
-		nParse := o.N * 40 / 100
+		rSeq := r.Fork()
+		nParse := o.N * 35 / 100
 		nPrint := o.N * 10 / 100
 		nParams := o.N * 20 / 100
 		nRender := o.N * 10 / 100
-		nRes := o.N - nParse - nPrint - nParams - nRender
+		nSeq := o.N * 10 / 100
+		nRes := o.N - nParse - nPrint - nParams - nRender - nSeq
+		for i := 0; i < nSeq; i++ {
+			cases = append(cases, caseSeq(tmp, genSeq(rSeq)))
+		}
 		for i := 0; i < nParse; i++ {
 			s := validQueryString(rParse)
 			if rParse.Chance(1, 2) {
@@ -465,6 +478,9 @@ func main() {
 			for k := rRender.Range(1, 6); k > 0; k-- {
 				if rRender.Chance(1, 2) {
 					tpl = append(tpl, piece{Var: rRender.Pick(names)})
+				} else if rRender.Chance(1, 3) {
+					e := genExpr(rRender, 2)
+					tpl = append(tpl, piece{Exp: &e})
 				} else {
 					tpl = append(tpl, piece{Lit: rRender.Pick(lits)})
 				}
